@@ -8,7 +8,7 @@ shutil.copy(os.path.join(src, 'demo.py'), os.path.join(dst, 'demo.py'))
 reb = os.path.join(src, 'patch.rebased.diff')
 shutil.copy(reb if os.path.exists(reb) else os.path.join(src, 'patch.diff'), os.path.join(dst, 'patch.diff'))
 meta = json.load(open(os.path.join(src, 'meta.json')))
-tr = json.load(open(os.path.join(src, 'try_result.json')))
+tr = json.load(open(os.path.join('/tmp/mut-results', os.path.abspath(src).strip('/').replace('/', '_') + '.json')))
 meta['origin'] = 'independent sub-agent given only the property text and a scratch worktree'
 meta['confirmed_by_me'] = {'pinned_suite': tr.get('pinned'), 'demo_exit_on_clean_tree': tr.get('demo_clean_rc'),
                            'demo_exit_on_changed_tree': tr.get('demo_mutant_rc'),
